@@ -969,6 +969,7 @@ func TestVerifC12(t *testing.T) {
 		"annotated tags (tag name, tagger, message) are compared as part of 'the same ... messages'; a difference is reported under C12:tag-changed:*",
 		"a non-zero exit of a documented-valid invocation is reported as C12:migrate-failed:* (the statement presupposes a completed migration); --yes is always passed (raw files at LFS-tracked paths make the work tree look modified)",
 		"work tree and index after the migration are not part of the statement and are not checked; LFS objects are local (no remote transfer); export's final prune runs against local state only",
+		"after an export, an untouched pointer whose object was introduced only by commits that exist on a configured remote may have lost its local object (git-lfs-prune is documented to drop local copies of pushed objects): counted, not demanded; every other untouched pointer must still resolve locally",
 		"git 2.39.5; subprocess timeout 60 s is a tool guard (=> inconclusive)",
 	}
 	exec := func(p []vx.Point) vx.Result { return vx.SafeRun(ev.runCase, p) }
